@@ -3,6 +3,7 @@ import OpenFecVerif.Props.C09Validate
 import OpenFecVerif.Props.C05
 import OpenFecVerif.Proofs.DrawTotal
 import Mathlib.Tactic.Linarith
+import Mathlib.Data.List.Perm.Subperm
 /-!
 # C09 at full strength: `of_set_fec_parameters` answers OK **exactly** for the configurations inside the advertised limits
 
@@ -62,5 +63,29 @@ theorem C09_accept_iff_limits (IO : SymIO σ) (g : Nat) (s : Session σ) (p : Pa
     · exact absurd h hne
     · exact h
 
+
+theorem nodup_lt_length (l : List Nat) (n : Nat) (hnd : l.Nodup) (hlt : ∀ e ∈ l, e < n) : l.length ≤ n := by
+  have hsub : l ⊆ List.range n := fun e he => List.mem_range.mpr (hlt e he)
+  have := (List.subperm_of_subset hnd hsub).length_le
+  simpa using this
+
+/-- **the 16-bit per-equation counters of the decoder cannot overflow** (`tab_nb_unknown_symbols`, `tab_nb_enc_symbols_per_equ` are
+`UINT16` in the C control block; the model keeps them as unbounded naturals): in every accepted LDPC-Staircase configuration an equation
+has at most n ≤ 50000 < 65536 entries -/
+theorem C09_counters_fit_16_bits {σ : Type} (IO : SymIO σ) (g : Nat) (s : Session σ) (p : Params) (g' : Nat) (s' : Session σ) (hc : s.codec = 3)
+    (h : setParamsStd IO g s p = (g', Status.ok, s')) : ∀ row ∈ s'.H, row.length ≤ 50000 ∧ row.length < 65536 := by
+  obtain ⟨_, hwf, _, _, _, _⟩ := C05_configured_session IO g s p g' s' hc h
+  have hok : (setParamsStd IO g s p).2.1 = Status.ok := by rw [h]
+  have hw := (C09_accept_iff_limits IO g s p).1.mp hok
+  rw [hc] at hw
+  obtain ⟨_, _, _, _, h5, _, _⟩ := (C09_limits 3 p).1.mp hw
+  have hmaxN : maxN 3 p.m = 50000 := (C09_limits 3 p).2.2.2.2.2.2
+  rw [hmaxN] at h5
+  intro row hrow
+  obtain ⟨hnd, hlt⟩ := hwf row hrow
+  have := nodup_lt_length row (p.k + p.r) hnd hlt
+  omega
+
 #print axioms C09_ldpc_construction_returns
 #print axioms C09_accept_iff_limits
+#print axioms C09_counters_fit_16_bits
